@@ -64,6 +64,8 @@ def generate(ctx):
               (b"sub", D((b"x", D()), (b"x.c", F(8)), (b"x-", D()))), (b"sub.d", F(9)))
     for rel, sl in ((True, 0), (False, 1)):
         cases.append({"tree": twins, "slashes": sl, "relative": rel, "listing_seed": rng.randrange(2**31), "git": False})
+    # depth: a chain of 300 nested one-letter directories with a file at the bottom (a path of 600 bytes)
+    cases.append({"deep_chain": 300, "tree": {"t": "dir", "entries": []}, "slashes": 0, "relative": False, "listing_seed": 1, "git": False})
     # ... and under names a shell (not the library, not the command) would expand
     for top, sl in (("~", 0), ("~", 1), ("~root", 0), ("$HOME", 0), ("*", 2)):
         cases.append({"tree": selfname, "slashes": sl, "relative": True, "listing_seed": rng.randrange(2**31), "git": False, "top": top})
@@ -131,6 +133,11 @@ def check_cases(ctx, cases):
 
 def _check_cases(ctx, cases, reqs, impls, CliRunner, from_disk, identify, Directory):
     for ci, case in enumerate(cases):
+        if case.get("deep_chain"):
+            deep_chain(ctx, case, Directory, CliRunner, identify)
+            impls.append(None)
+            reqs.extend([{"op": "ping"}] * 2)
+            continue
         spec = case["tree"]
         nsub = sum(1 for p, n in fs.walk(spec) if n["t"] == "dir") - 1
         ctx.case(case, nontrivial=nsub >= 1 and len(spec["entries"]) >= 2)
@@ -269,6 +276,47 @@ def _check_cases(ctx, cases, reqs, impls, CliRunner, from_disk, identify, Direct
             ctx.disagree(case, "per-node (kind, id, mode): model vs implementation", model=[mobs.get(p) for p in bad[:3]], impl=[obs.get(p) for p in bad[:3]])
         if unhx(rn["r"]["path"]) != top_path:
             ctx.disagree(case, "normalised top path: model vs implementation", model=rn["r"]["path"], impl=hx(top_path))
+
+
+def deep_chain(ctx, case, Directory, CliRunner, identify):
+    """a tree much deeper than it is wide: ids computed bottom-up with hashlib, without recursion"""
+    import hashlib
+    import shutil
+
+    from common import scratch_dir
+
+    depth = case["deep_chain"]
+    ctx.case(case)
+    ctx.count("deep-chain")
+    base = scratch_dir("c06deep").encode()
+    try:
+        top = os.path.join(base, b"top")
+        path = top
+        for k in range(depth):
+            path = os.path.join(path, b"abcdefg"[k % 7 : k % 7 + 1])
+        os.makedirs(path)
+        data = b"at the bottom\n"
+        with open(os.path.join(path, b"f"), "wb") as fh:
+            fh.write(data)
+        tree = lambda body: hashlib.sha1(b"tree %d\x00" % len(body) + body).digest()
+        cur = tree(b"100644 f\x00" + hashlib.sha1(b"blob %d\x00" % len(data) + data).digest())
+        for k in reversed(range(depth)):
+            cur = tree(b"40000 " + b"abcdefg"[k % 7 : k % 7 + 1] + b"\x00" + cur)
+        try:
+            with ctx.time_limit(120):
+                d = Directory.from_disk(path=top)
+                got = d.hash
+        except (RecursionError, OSError, ValueError, KeyError, ImplementationHang) as e:
+            ctx.fail(case, f"a tree {depth} directories deep cannot be read: {type(e).__name__}", "read-or-lookup-fails:deep-chain")
+            return
+        if got != cur:
+            ctx.fail(case, f"the root id of a tree {depth} directories deep is not git's tree id", "root-id-not-git:deep-chain", {"impl": got.hex(), "want": cur.hex()})
+        with ctx.time_limit(120):
+            r = CliRunner().invoke(identify, ["--no-filename", os.fsdecode(top)])
+        if r.exit_code != 0 or r.stdout.strip() != "swh:1:dir:" + cur.hex():
+            ctx.fail(case, f"swh identify on a tree {depth} directories deep prints another id than git's (or fails)", "cli-differs:deep-chain", {"output": r.output[:200]})
+    finally:
+        shutil.rmtree(base, ignore_errors=True)
 
 
 def neighbours(ctx, case):
